@@ -735,8 +735,8 @@ func c10R2(c *Check, sr *storeRoles) {
 						mayBeNil = true
 					}
 				}
-				if !mayBeNil {
-					continue
+				if !mayBeNil || FactsOf(h).At(r).NonNil(errV) {
+					continue // an error return
 				}
 			}
 			any = true
@@ -850,6 +850,34 @@ func c10R3(c *Check, sr *storeRoles) {
 		}
 		c.Obl(n >= 1, "C10.R3", "ttl/"+name+"/count", P.Pos(fn.Pos()), fmt.Sprintf("%d successful returns", n), "no successful return found in redis "+name)
 	}
+	// the creation time handed to the refresher is the stored one (or the zero time, which makes the refresher
+	// read it from the hash) — never the current time: a write to an existing session would otherwise set the
+	// key's TTL to now + absolute and a later read would hand out a session that is past its absolute limit
+	nRef := 0
+	for _, site := range P.CallersOf(ref) {
+		var tArg ssa.Value
+		for i, p := range ref.Params {
+			if typeID(p.Type()) == "time.Time" && i < len(site.Common().Args) {
+				tArg = site.Common().Args[i]
+			}
+		}
+		if tArg == nil {
+			continue
+		}
+		nRef++
+		isNow := false
+		for d := range dataDeps(tArg) {
+			if nc, _, isC := asCall(d); isC && isCallTo(nc, pkgOIDC+".Clock.Now") {
+				isNow = true
+			}
+		}
+		if nc, _, isC := asCall(resolveCell(stripConv(tArg))); isC && isCallTo(nc, pkgOIDC+".Clock.Now") {
+			isNow = true
+		}
+		c.Obl(!isNow, "C10.R3", "refresher-gets-stored-creation-time/"+fnKey(site.Parent()), P.Pos(site.Pos()), "the refresher is given the stored creation time (or the zero time)",
+			"the TTL refresher is given the current time as the session's creation time in "+fnKey(site.Parent())+": for a session that already exists the key's TTL becomes now + absolute timeout and the session is handed out after its absolute limit")
+	}
+	c.Obl(nRef >= 3, "C10.R3", "refresher-call-sites", "-", fmt.Sprintf("%d call sites of the TTL refresher", nRef), fmt.Sprintf("only %d call sites of the TTL refresher found", nRef))
 	// refresher shape
 	var ex *ssa.Call
 	for _, ci := range redisCalls(ref, "ExpireAt") {
